@@ -1,13 +1,24 @@
 #!/bin/bash
-# Builds everything the checks need, offline, from /repo's working tree.
+# Builds everything the checks need, offline, from /repo's working tree (each check also does this incrementally by itself).
 set -u
 cd "$(dirname "$0")"
 export ASAN_OPTIONS=detect_leaks=0
 rc=0
-for f in asan tsan fuzz; do
-  [ -f driver/Makefile ] || continue
+mkdir -p build
+for f in asan ndebug tsan fuzz; do
   bin/ensure-build $f || { echo "setup: build of flavor $f failed" >&2; rc=2; continue; }
+  [ $f = fuzz ] && continue
+  make -s -C driver FLAVOR=$f -j16 all > build/$f/drv.log 2>&1 || { echo "setup: driver build failed ($f)" >&2; tail -20 build/$f/drv.log >&2; rc=2; }
 done
-make -s -C driver FLAVOR=asan -j16 all > build/asan/drv.log 2>&1 || { echo "setup: driver build failed" >&2; tail -20 build/asan/drv.log >&2; rc=2; }
-[ -x bin/setup-extra ] && { bin/setup-extra || rc=2; }
+# fault-injection sweep (C19), rapidcheck targets (C20), libFuzzer targets (C03)
+make -s -C driver -f Makefile.xfault FLAVOR=asan -j16 > build/asan/xfault.log 2>&1 || { echo "setup: xfault build failed" >&2; tail -20 build/asan/xfault.log >&2; rc=2; }
+mkdir -p build/asan/rc
+make -s -C rc -j16 all > build/asan/rc/make.log 2>&1 || { echo "setup: rapidcheck targets failed" >&2; tail -20 build/asan/rc/make.log >&2; rc=2; }
+if [ -f fuzz/Makefile ]; then
+  make -s -C fuzz -j16 > build/fuzz/fz.log 2>&1 || { echo "setup: fuzz targets failed" >&2; tail -20 build/fuzz/fz.log >&2; rc=2; }
+fi
+# self-tests of the reference models (the oracles): worked examples of the Recommendations, derived by hand
+for m in vf.test_ref_xpath vf.test_ref_xslt; do
+  ( cd py && python3-vt -m $m > ../build/selftest.$m.log 2>&1 ) || { echo "setup: $m failed" >&2; tail -5 build/selftest.$m.log >&2; rc=2; }
+done
 exit $rc
